@@ -868,7 +868,7 @@ func genTOML(t *rapid.T) TOMLCase {
 			lines = append(lines, rapid.SampledFrom([]string{
 				"a = 1", "b.c = 2", "b.d.e = \"x\"", "hex = 0xFF", "oct = 0o17", "bin = 0b101", "us = 1_000", "f = 1e3", "neg = -0.5", "s = 'lit\\eral'", "m = \"\"\"\nmulti\nline\"\"\"", "arr = [1, 2, 3]", "nested = [[1, 2], [3]]",
 				"inline = {x = 1, y = {z = 2}}", "[t]", "k = true", "[t.sub]", "q = \"v\"", "[[aot]]", "n = 1", "[[aot]]", "n = 2", "[[aot.inner]]", "z = 9", "\"quoted key\" = 1", "empty = []", "mixed = [\"a\", \"b\"]",
-				"d = 1979-05-27", "lt = 07:32:00", "ldt = 1979-05-27T07:32:00", "odt = 1979-05-27T00:32:00-07:00", "sdt = 1979-05-27 07:32:00Z", "pos = +3", "fu = 6.0_1", "hu = 0xdead_beef", "[t.sub.deep]", "[u]", "[[t.list]]", "[t.list.in]", "tbl = [{a = 1}, {a = 2, b = [1]}]", "\"a*\" = 1", "ab = 2", "'b?' = 3", "bc = 4", "esc = \"tab\\there \\u00e9 \\\"q\\\"\"",
+				"d = 1979-05-27", "lt = 07:32:00", "ldt = 1979-05-27T07:32:00", "odt = 1979-05-27T00:32:00-07:00", "sdt = 1979-05-27 07:32:00Z", "pos = +3", "fu = 6.0_1", "hu = 0xdead_beef", "[t.sub.deep]", "[u]", "[[t.list]]", "[t.list.in]", "tbl = [{a = 1}, {a = 2, b = [1]}]", "\"a*\" = 1", "ab = 2", "'b?' = 3", "bc = 4", "it = { b.c = 1, b.d = 2 }", "it2 = {x.y = 1, x.z = {w = 2}, \"q r\" = 3}", "arr2 = [{p.q = 1, p.r = 2}, {p.q = 3}]", "it3 = {a.b.c = 1, a.b.d = 2, a.e = 3}", "esc = \"tab\\there \\u00e9 \\\"q\\\"\"",
 			}).Draw(t, "hl"))
 		}
 		// keys must not repeat within a table: let BurntSushi decide validity (invalid documents are discarded)
@@ -1201,6 +1201,10 @@ func TestProp(t *testing.T) {
 		hx.NewSub("csv_raw", 2000, 15000, genCSVRaw, checkCSVRaw),
 		hx.NewSub("lua_yaml", 2000, 15000, genLuaYAML, checkLuaYAML),
 		hx.NewSub("lua_keys", 2500, 20000, genLuaKeys, checkLuaKeys),
+		hx.NewSub("base64_file", 1500, 10000, genB64File, checkB64File),
+		hx.NewSub("toml_floats", 40, 200, func(t *rapid.T) TomlFloatCase {
+			return TomlFloatCase{Spelling: rapid.SampledFrom([]string{"nan", "+nan", "-nan", "inf", "+inf", "-inf", "1e0", "-0.0", "6.626e-34", "5e+22"}).Draw(t, "sp")}
+		}, checkTomlFloat),
 		hx.NewSub("xml_prefs", 2000, 15000, genXMLPrefs, checkXMLPrefs),
 		hx.NewSub("pairs", 1500, 10000, func(t *rapid.T) PairCase { return PairCase{Doc: genLuaDoc(t, 3).JSON()} }, checkPairs),
 	)
